@@ -1949,18 +1949,34 @@ var g = &grammar{
 			expr: &actionExpr{
 				pos: position{line: 432, col: 17, offset: 13313},
 				run: (*parser).callonBoolConstant1,
-				expr: &choiceExpr{
+				expr: &seqExpr{
 					pos: position{line: 432, col: 18, offset: 13314},
-					alternatives: []interface{}{
-						&litMatcher{
-							pos:        position{line: 432, col: 18, offset: 13314},
-							val:        "true",
-							ignoreCase: false,
+					exprs: []interface{}{
+						&choiceExpr{
+							pos: position{line: 432, col: 18, offset: 13314},
+							alternatives: []interface{}{
+								&litMatcher{
+									pos:        position{line: 432, col: 18, offset: 13314},
+									val:        "true",
+									ignoreCase: false,
+								},
+								&litMatcher{
+									pos:        position{line: 432, col: 27, offset: 13323},
+									val:        "false",
+									ignoreCase: false,
+								},
+							},
 						},
-						&litMatcher{
-							pos:        position{line: 432, col: 27, offset: 13323},
-							val:        "false",
-							ignoreCase: false,
+						&notExpr{
+							pos: position{line: 432, col: 36, offset: 13332},
+							expr: &charClassMatcher{
+								pos:        position{line: 432, col: 37, offset: 13333},
+								val:        "[A-Za-z0-9._]",
+								chars:      []rune{'.', '_'},
+								ranges:     []rune{'A', 'Z', 'a', 'z', '0', '9'},
+								ignoreCase: false,
+								inverted:   false,
+							},
 						},
 					},
 				},
